@@ -4,6 +4,7 @@ import (
 	"fmt"
 	"go/token"
 	"go/types"
+	"os"
 	"strings"
 
 	"golang.org/x/tools/go/ssa"
@@ -41,7 +42,7 @@ func c13Surfaces(p *model.Prog) []c13Surface {
 }
 
 var c13Files = []string{
-	"pkg/rtsp/", "pkg/sdp/", "pkg/rtprtcp/rtp_packet.go", "pkg/rtprtcp/rtcp.go", "pkg/rtprtcp/rtp_unpacker", "pkg/rtprtcp/rtp_unpack", "pkg/rtprtcp/rtp_packet_list.go", "pkg/rtprtcp/rtp.go",
+	"pkg/rtsp/", "pkg/sdp/", "pkg/rtprtcp/rtp_packet.go", "pkg/rtprtcp/rtcp", "pkg/rtprtcp/rtp_unpacker", "pkg/rtprtcp/rtp_unpack", "pkg/rtprtcp/rtp_packet_list.go", "pkg/rtprtcp/rtp.go",
 	"pkg/gb28181/", "pkg/base/websocket.go", "pkg/base/url.go", "pkg/base/http_sub_session.go", "pkg/base/basic_http_sub_session.go",
 	"pkg/rtmp/client_session.go", "pkg/rtmp/client_pull_session.go", "pkg/rtmp/client_push_session.go", "pkg/rtmp/handshake.go",
 	"pkg/httpflv/client_pull_session.go", "pkg/httpflv/tag.go", "pkg/httpflv/server_sub_session.go", "pkg/httpts/", "pkg/avc/", "pkg/hevc/", "pkg/aac/", "pkg/h2645/", "pkg/base/avpacket",
@@ -64,6 +65,13 @@ func c13(p *model.Prog, r *report.Result) {
 	reach := p.Reachable(roots, false, func(f *ssa.Function) bool { return !cut[f] && (model.IsLal(f) || model.IsNaza(f)) })
 	r.Count("functions_analysed", len(reach))
 	r.Rule("C13.PO", "engine B over the functions reachable from the read entry points of each surface (group fan-out cut: C05): index<len, 0<=low<=high<=cap, divisor>=1, make size bounded, no unchecked type assertion, library length preconditions, no process terminator")
+	if os.Getenv("LALCHECK_C13_SCOPE") != "" {
+		for f := range reach {
+			if model.IsLal(f) && !inFiles(p, f, c13Files) {
+				fmt.Println("C13-OUT-OF-FILTER", p.Pos(f.Pos()), f.String())
+			}
+		}
+	}
 	_, n := runPO(p, r, poConfig{rule: "C13.PO", roots: roots, filter: func(fn *ssa.Function) bool { return inFiles(p, fn, c13Files) }, cut: func(f *ssa.Function) bool { return cut[f] }})
 	if n < 300 {
 		r.Bad("C13.PO", "floor", "", "fewer than 300 obligations enumerated for the surfaces")
@@ -113,6 +121,7 @@ func c13(p *model.Prog, r *report.Result) {
 		}
 	}
 	nilFieldRule(p, r, "C13.NILF", scope, c13NilExceptions, 10, 10)
+	w7ParseAuPremise(p, r, "C13.AUHDR")
 	w6NilLocal(p, r, "C13.NILL", 3, "pkg/sdp", "pkg/rtsp", "pkg/rtprtcp", "pkg/gb28181", "pkg/base", "pkg/httpflv", "pkg/hls", "pkg/rtmp", "pkg/logic", "pkg/avc", "pkg/hevc", "pkg/aac", "pkg/mpegts", "pkg/remux", "pkg/httpts")
 }
 
